@@ -131,13 +131,14 @@ def code_order_globals(body):
 
 
 # the C02 features that also change the JavaScript (F40 / F122 / F124 / F125 / F21 do not: the JavaScript side is right there)
-C02_RELEVANT = ("F20", "F22", "F38")
-EXCEPTION_FEATURES = ("F22",)
+C02_RELEVANT = ("F20", "F38")
+EXCEPTION_FEATURES = ()
+FIXED_JS = {"F120", "F128", "F129", "F130"}     # repaired in /repo: ordinary inputs now
 
 
 def all_features(h, tree):
     f = [x for x in L.features(h, tree[3][1:], [y[1] for y in tree[4:]]) if x in C02_RELEVANT]
-    return sorted(set(f + js_features(h, kind_of(tree))))
+    return sorted(x for x in set(f + js_features(h, kind_of(tree))) if x not in FIXED_JS)
 
 
 def limit_features(h, tree, alone=False):
